@@ -57,6 +57,8 @@ def run(chk):
 
 def replay(chk, path):
     case = json.load(open(path))["payload"]
+    if vlib.replay_generic(chk, case):
+        chk.finish(rule="re-validation of one recorded trace / batch job")
     if "event" in case:
         tp = chk.path("replay.ndjson")
         vlib.write_ndjson(tp, [case["event"]])
